@@ -24,19 +24,35 @@ fn out_bits_equal<T: Elem>(x: &Out<T>, y: &Out<T>) -> Option<String> {
             if a.to_bits() == b.to_bits() {
                 None
             } else {
-                Some(format!("value {} ({}) vs {} ({})", a.show(), hexs(*a), b.show(), hexs(*b)))
+                Some(format!(
+                    "value {} ({}) vs {} ({})",
+                    a.show(),
+                    hexs(*a),
+                    b.show(),
+                    hexs(*b)
+                ))
             }
-        },
+        }
         (Out::Vector(a), Out::Vector(b)) => {
             if a.len() != b.len() {
                 return Some("result lengths differ".into());
             }
             (0..a.len()).find(|&i| a[i].to_bits() != b[i].to_bits()).map(|i| {
-                format!("result[{i}] = {} ({}) vs {} ({})", a[i].show(), hexs(a[i]), b[i].show(), hexs(b[i]))
+                format!(
+                    "result[{i}] = {} ({}) vs {} ({})",
+                    a[i].show(),
+                    hexs(a[i]),
+                    b[i].show(),
+                    hexs(b[i])
+                )
             })
-        },
+        }
         (Out::Panic(_), Out::Panic(_)) => None,
-        (a, b) => Some(format!("{} vs {}", crate::oracle::show_out(a), crate::oracle::show_out(b))),
+        (a, b) => Some(format!(
+            "{} vs {}",
+            crate::oracle::show_out(a),
+            crate::oracle::show_out(b)
+        )),
     }
 }
 
@@ -53,9 +69,20 @@ fn check<T: Elem>(c: &VecCall<T>, ar: &mut Arenas) -> Verdict {
     let e1 = c1.exec(ar);
     // interleaved unrelated call (same routine, other data, other length)
     let mut noise = c.clone();
-    let nl = if c.r.dims.is_some() { c.a.len() } else { (c.a.len() * 2 + 3) % 97 };
-    noise.a = (0..nl).map(|i| T::from_bits(h.rotate_left(i as u32 % 64) | 1)).map(|x: T| if x.is_nan() { T::one() } else { x }).collect();
-    noise.b = if c.uses_b() { noise.a.iter().rev().cloned().collect() } else { Vec::new() };
+    let nl = if c.r.dims.is_some() {
+        c.a.len()
+    } else {
+        (c.a.len() * 2 + 3) % 97
+    };
+    noise.a = (0..nl)
+        .map(|i| T::from_bits(h.rotate_left(i as u32 % 64) | 1))
+        .map(|x: T| if x.is_nan() { T::one() } else { x })
+        .collect();
+    noise.b = if c.uses_b() {
+        noise.a.iter().rev().cloned().collect()
+    } else {
+        Vec::new()
+    };
     noise.res_len = if c.uses_result() { nl } else { 0 };
     noise.place = [Place::Start, Place::AlignHi(k(3)), Place::AlignLo(k(9))];
     let _ = noise.exec(ar);
@@ -89,10 +116,14 @@ fn check<T: Elem>(c: &VecCall<T>, ar: &mut Arenas) -> Verdict {
         }
     }
     if let Some(d) = out_bits_equal(&e1.out, &e2.out) {
-        let fills = [T::from_bits(c1.prefill).to_bits(), T::from_bits(c2.prefill).to_bits()];
+        let fills = [
+            T::from_bits(c1.prefill).to_bits(),
+            T::from_bits(c2.prefill).to_bits(),
+        ];
         let unwritten = match (&e1.out, &e2.out) {
-            (Out::Vector(a), Out::Vector(b)) => (0..a.len().min(b.len()))
-                .any(|i| a[i].to_bits() == fills[0] && b[i].to_bits() == fills[1]),
+            (Out::Vector(a), Out::Vector(b)) => {
+                (0..a.len().min(b.len())).any(|i| a[i].to_bits() == fills[0] && b[i].to_bits() == fills[1])
+            }
             _ => false,
         };
         return Some(Fail {
@@ -101,7 +132,8 @@ fn check<T: Elem>(c: &VecCall<T>, ar: &mut Arenas) -> Verdict {
             expected: "bit-identical outcomes for identical logical inputs".into(),
             actual: d,
             note: if unwritten {
-                "a result element kept its pre-fill pattern in both runs: not every element is overwritten".into()
+                "a result element kept its pre-fill pattern in both runs: not every element is overwritten"
+                    .into()
             } else {
                 format!(
                     "run 1: placement {:?}, poison 0xA5; run 2: placement {:?}, poison 0x3C",
@@ -123,7 +155,13 @@ fn one_target<T: Elem>(ctx: &mut Ctx, t: Target<T>) {
     } else {
         // quick: every third length of the smart subset (phase chosen by the job seed) + the ends
         let ph = rng.usize_below(3);
-        let mut v: Vec<usize> = all.iter().cloned().enumerate().filter(|(i, _)| i % 3 == ph).map(|(_, l)| l).collect();
+        let mut v: Vec<usize> = all
+            .iter()
+            .cloned()
+            .enumerate()
+            .filter(|(i, _)| i % 3 == ph)
+            .map(|(_, l)| l)
+            .collect();
         v.push(*all.last().unwrap());
         v.push(0);
         v.sort_unstable();
@@ -141,7 +179,11 @@ fn one_target<T: Elem>(ctx: &mut Ctx, t: Target<T>) {
         }
         for rep in 0..reps {
             let gen = |rng: &mut Rng, divisor: bool| -> T {
-                let v = if small && rep % 2 == 0 { vals::small_int::<T>(rng, 4) } else { vals::mixed(rng, &bounds, false) };
+                let v = if small && rep % 2 == 0 {
+                    vals::small_int::<T>(rng, 4)
+                } else {
+                    vals::mixed(rng, &bounds, false)
+                };
                 if divisor && int_div && v == T::zero() {
                     T::one()
                 } else {
@@ -149,7 +191,11 @@ fn one_target<T: Elem>(ctx: &mut Ctx, t: Target<T>) {
                 }
             };
             let a: Vec<T> = (0..len).map(|_| gen(&mut rng, false)).collect();
-            let b: Vec<T> = if kind_uses_b(t.r.kind()) { (0..len).map(|_| gen(&mut rng, true)).collect() } else { Vec::new() };
+            let b: Vec<T> = if kind_uses_b(t.r.kind()) {
+                (0..len).map(|_| gen(&mut rng, true)).collect()
+            } else {
+                Vec::new()
+            };
             let v = gen(&mut rng, true);
             let mut c: VecCall<T> = t.call().with_data(v, a, b);
             c.weight = 3;
